@@ -169,6 +169,20 @@ Fixpoint dedup (l : list nat) : list nat :=
               end
   end.
 
+(* the steps applied to the candidate list, in the order the closure writes them
+   (read from the source: Gen/MeshTables.v, [dual_row_steps]) *)
+Definition run_step (pred : nat -> res bool) (s : row_step) (l : list nat) : res (list nat) :=
+  match s with
+  | RFilter => filterM pred l
+  | RSort => Ok (sort_nat l)
+  | RDedup => Ok (dedup l)
+  end.
+Fixpoint run_steps (pred : nat -> res bool) (steps : list row_step) (l : list nat) : res (list nat) :=
+  match steps with
+  | [] => Ok l
+  | s :: t => bind (run_step pred s l) (run_steps pred t)
+  end.
+
 Definition row_of (dim : nat) (n2e : list (list nat)) (cs : list chunk)
            (e1 : nat) (e1_nodes : list nat) : res (list nat) :=
   bind (mapM (fun v => match nth_opt n2e v with
@@ -176,12 +190,11 @@ Definition row_of (dim : nat) (n2e : list (list nat)) (cs : list chunk)
                        | None => Panic P_NODE_OOB
                        end) e1_nodes)
        (fun ls =>
-  bind (filterM (fun e2 =>
-                   if e1 =? e2 then Ok false
-                   else bind (element_to_nodes cs e2)
-                             (fun e2_nodes => Ok (threshold dim (count_common e1_nodes e2_nodes))))
-                (concat ls))
-       (fun neighbors => Ok (dedup (sort_nat neighbors)))).
+          run_steps (fun e2 =>
+                       if e1 =? e2 then Ok false
+                       else bind (element_to_nodes cs e2)
+                                 (fun e2_nodes => Ok (threshold dim (count_common e1_nodes e2_nodes))))
+                    dual_row_steps (concat ls)).
 
 (* the writes `indice_locks[e1] = neighbors` issued for one chunk:
    `par_chunks_exact(npe).zip(start_idx..end_idx).for_each(..)` *)
